@@ -13,8 +13,9 @@ except ImportError:          # the runtime half lives in its own module
     c17life = None
 
 LEAN_TARGETS = ["LyModel.Props.C17", "LyModel.Props.C17L1"]
-AUDIT = "Audit/C17.lean"
+AUDIT = ["Audit/C17.lean", "Audit/C17Fn.lean"]
 GENERATED = ["Consts"]
+LEAN_TARGETS += ["LyModel.Props.C17Fn"]; GENERATED += ["FnHash", "FnHt"]     # functions translated from the C source (tools/c2lean.py), bridged in lean/LyModel/Bridge
 ASSUMPTIONS = [
     "hash table arithmetic is modelled on Nat: tables have fewer than 2^25 records (`used * 100` and `size << 1` do not wrap in uint32_t)",
     "`char` is signed (x86-64 Linux): lyht_hash adds sign-extended bytes",
@@ -43,6 +44,7 @@ def classify(component, what, case):
 
 
 def run(cx):
+    from checks import fncomp; fncomp.run_fn(cx, ['hash', 'ht'])
     parts = os.environ.get("C17_PARTS", "ht,life").split(",")      # development aid: run one half only
     if "ht" in parts:
         htcomp.run_ht(cx)
